@@ -49,9 +49,12 @@ class SubvolumeAccessor(SgzReader):
         return start, step, stop
 
     def _check_subscripts(self, subscript, coords, coord_name):
-        if subscript.start is not None and not coords[0] <= subscript.start < coords[-1] + coords[1] - coords[0]:
+        # Axes may be descending: compare along the direction of the axis
+        sign = 1 if coords[1] > coords[0] else -1
+        first, end = sign * coords[0], sign * (coords[-1] + coords[1] - coords[0])
+        if subscript.start is not None and not first <= sign * subscript.start < end:
             raise IndexError(f"{coord_name} start {subscript.start} out of range. Axes are {self.axes_message}")
-        if subscript.stop is not None and not coords[0] < subscript.stop <= coords[-1] + coords[1] - coords[0]:
+        if subscript.stop is not None and not first < sign * subscript.stop <= end:
             raise IndexError(f"{coord_name} stop {subscript.stop} out of range. Axes are {self.axes_message}")
         if subscript.step is not None and not subscript.step % (coords[1] - coords[0]) == 0:
             raise IndexError(f"{coord_name} step {subscript.step} invalid. Axes are {self.axes_message}")
